@@ -5,6 +5,7 @@ package main
 import (
 	"fmt"
 	"go/constant"
+	"sort"
 
 	"golang.org/x/tools/go/ssa"
 	"go/types"
@@ -180,10 +181,16 @@ func (fr *FnRun) eval(e *Expr, env *Env) Val {
 		case "-":
 			return Neg(fr.evalTerm(e.X, env))
 		case "*":
-			v := fr.eval(e.X, env)
+			v := ex.force(env.st, fr.eval(e.X, env))
+			if iv, ok := v.(*IfaceV); ok && iv.Pay != nil {
+				v = ex.force(env.st, iv.Pay)
+			}
 			p, ok := v.(*PtrV)
 			if !ok {
 				panic(abortf("contract: * of %T", v))
+			}
+			if p.Obj == nil {
+				return ex.freshVal(p.Elem, ex.fresh("nilderef"))
 			}
 			return ex.load(env.st, p)
 		}
@@ -525,6 +532,36 @@ func (fr *FnRun) evalCall(e *Expr, env *Env) Val {
 	case "isnil":
 		need(1)
 		return fr.specEq(env.st, arg(0), nilMarker{})
+	case "allfresh":
+		// allfresh(pkg.Type, ghost): the ghost flag holds for every opaque object of that interface
+		// type that came into existence during this call (e.g. every connection dialed by it)
+		if len(e.Args) != 2 || e.Args[1].Kind != "ident" {
+			panic(abortf("contract: allfresh(Type, ghostfield)"))
+		}
+		tn := e.Args[0].Src
+		if tn == "" && e.Args[0].Kind == "sel" && e.Args[0].X.Kind == "ident" {
+			tn = e.Args[0].X.Name + "." + e.Args[0].Name
+		}
+		var cs []*Term
+		var objs []*Obj
+		for o := range env.st.heap {
+			objs = append(objs, o)
+		}
+		sort.Slice(objs, func(i, j int) bool { return objs[i].ID < objs[j].ID })
+		for _, o := range objs {
+			if o.ID <= fr.entryMaxObj || !strings.HasSuffix(o.Name, ".dyn") {
+				continue
+			}
+			if k := TypeKey(o.T); k != tn && !strings.HasSuffix(k, "/"+tn) {
+				continue
+			}
+			if gs, ok := env.st.heap[o].(*StructV); ok {
+				if g, ok := gs.Ghost[e.Args[1].Name].(*Term); ok {
+					cs = append(cs, g)
+				}
+			}
+		}
+		return And(cs...)
 	case "arrayof":
 		// arrayof(s): the SMT array holding the elements of s's backing array (index = offset(s) + i)
 		need(1)
